@@ -3,11 +3,11 @@ identically in debug and release builds.  (Arithmetic half: NativeFunctionCall::
 seed arithmetic of RANDOM / LIST_RANDOM / shuffles.  The engine-wide half is added by the
 engine development: see ENGINE_HOOK at the end of run().)"""
 import json, os
-import vlib, gen_tables
+import vlib, gen_tables, engine
 from props import native_common as nc
 from props.native_common import (I, F, B, S, L, DT, VP, VOID, OPS, I32_MIN, I32_MAX,
                                  story_json, native_content, op_json, op_coq, defs_coq, strip_site)
-from props import c07
+from props import c07, hist
 
 LEVEL = "proof"
 ASSUMPTIONS = [
@@ -131,6 +131,353 @@ def proof_ok(ctx, pr):
     return False
 
 
+# ------------------------------------------------------------------------------------------------
+# engine-wide half: story faults at run time (whole interpreter + host API), in both build profiles
+# ------------------------------------------------------------------------------------------------
+FAULT_VARS = 'VAR c04_zero = 0\nVAR c04_acc = 0\nVAR c04_str = "s"\nVAR c04_tgt = 0\n'
+
+# knots appended to every program: each first assigns an (observed) global, then faults
+FAULT_KNOTS = {
+    "c04_div": "~ c04_acc = c04_acc + 1\nquotient {10 / c04_zero}.\n-> END\n",
+    "c04_mod": "~ c04_acc = c04_acc + 2\nbefore\n~ c04_acc = 7 % c04_zero\nnever\n-> END\n",
+    "c04_type": "~ c04_acc = c04_acc + 3\nproduct {c04_str * 2}.\n-> END\n",
+    "c04_runout": "~ c04_acc = c04_acc + 4\na line and then nothing\n",
+    "c04_badtgt": "~ c04_acc = c04_acc + 5\n-> c04_tgt\n",
+    "c04_tun": "~ c04_acc = c04_acc + 6\n-> c04_tun_in ->\nback\n-> END\n",
+    "c04_tun_in": "inside\n",
+    "c04_call": "~ c04_acc = c04_acc + 7\ngot {c04_f(3)}.\n-> END\n",
+    "c04_late": "~ c04_acc = c04_acc + 8\nfirst line fine\nsecond line fine\n~ c04_acc = c04_acc * 2\nthird {1 % c04_zero}\n-> END\n",
+}
+FAULT_FUNCS = "=== function c04_f(a) ===\n~ c04_acc = c04_acc + a\n~ return a / c04_zero\n"
+FAULT_TARGETS = [k for k in FAULT_KNOTS if k != "c04_tun_in"]
+# statements put at the start of an existing knot / stitch (faults met in normal play)
+FAULT_STMTS = ["~ c04_acc = 10 / c04_zero", "~ c04_acc = c04_acc + 1\n{7 % c04_zero} lost", "~ c04_acc = c04_f(2)",
+               "~ c04_acc = 9\n-> c04_tgt", "~ c04_acc = c04_str - 1"]
+
+# hand-written fault programs (regression corpus of this half; generated programs are added to them)
+FAULT_CORPUS = [
+    # fault behind a jump, the default path assigns an observed global
+    """VAR x = 0
+VAR d = 0
+-> start
+=== start ===
+~ x = x + 1
+x is {x}.
+-> END
+=== bad ===
+Result {10 / d}.
+-> END
+""",
+    # faults behind choices, in a function, in a tunnel; several observed globals
+    """VAR a = 1
+VAR b = 0
+VAR s = "t"
+Begin {a}.
+~ a = a + 1
+* [divide] {a / b}
+  after
+  -> END
+* [call] {bad(a)}
+  -> END
+* [tunnel] -> tun -> 
+  ~ b = b + 1
+  back {b}
+  -> END
+* [fine]
+  ~ b = 5
+  ~ s = "u"
+  done {b}
+  -> END
+=== tun ===
+~ a = a * 3
+in tunnel {a % b}
+->->
+=== function bad(v) ===
+~ b = v
+~ return v / (b - v)
+""",
+    # error in the second line of a continue_maximally run, thread and sticky loop
+    """VAR n = 0
+VAR z = 0
+-> loop
+=== loop ===
+~ n = n + 1
+round {n}
++ [again] -> loop
++ {n > 1} [break] {n / z}
+  -> loop
+* [leave] -> END
+""",
+]
+
+
+def inject_faults(rng, src, inplay):
+    """source-level fault injection: the fault variables and knots are always added; with `inplay`
+    one or two faults are put on the program's own paths (a literal divisor becomes a zero-valued
+    variable, or a faulting statement opens an existing knot / stitch)"""
+    import re
+    body = src
+    if inplay:
+        sites = [("div", m.start(2), m.end(2)) for m in re.finditer(r"([/%]) ([1-9])\b", body)]
+        sites += [("hdr", m.end(), m.end()) for m in re.finditer(r"^(===\s*[A-Za-z_]\w*\s*===|=\s*[A-Za-z_]\w*)[ \t]*\n", body, re.M)]
+        rng.shuffle(sites)
+        for kind, a, e in sorted(sites[: rng.randint(1, 2)], key=lambda t: -t[1]):
+            if kind == "div":
+                body = body[:a] + "c04_zero" + body[e:]
+            else:
+                body = body[:a] + rng.choice(FAULT_STMTS) + "\n" + body[e:]
+    tail = "".join(f"=== {k} ===\n{v}" for k, v in FAULT_KNOTS.items()) + FAULT_FUNCS
+    return FAULT_VARS + body.rstrip("\n") + "\n" + tail
+
+
+def fault_programs(ctx, n_gen):
+    progs = []
+    srcs = [("fc%d" % i, s, False) for i, s in enumerate(FAULT_CORPUS)]
+    srcs += [("hb%d" % i, s, i % 2 == 1) for i, s in enumerate(hist.BUILTIN)]
+    g = hist.try_gen_ink()
+    k = 0
+    while g is not None and k < n_gen:
+        k += 1
+        try:
+            src, _ast = g.gen_program(ctx.rng)
+        except Exception:
+            break
+        srcs.append(("gen%d" % k, src, ctx.rng.random() < 0.7))
+    for pid, src, inplay in srcs:
+        ink = inject_faults(ctx.rng, src, inplay)
+        progs.append(dict(id=pid, ink=ink, **hist.analyse(ink)))
+    return progs
+
+
+def eng_block(lines):
+    i = next((k for k, l in enumerate(lines) if l.startswith("PATH ")), len(lines))
+    return [engine.canon_line(l) for l in lines[i:]]
+
+
+def fault_extras(ctx, p):
+    """host calls that run into a fault (or a rejected call) from wherever the story is"""
+    r = ctx.rng
+    fk = r.choice(FAULT_TARGETS)
+    return r.choice([
+        [["PATH", fk, True], ["CONT"]],
+        [["PATH", fk, True], ["CONT"], ["CONT"]],
+        [["PATH", fk, False], ["CONT_MAX"]],
+        [["PATH", fk, True], ["CONT_MAX"], ["EVAL", "c04_f", [{"i": 1}]]],
+        [["EVAL", "c04_f", [{"i": 3}]]],
+        [["EVAL", "c04_f", [{"i": 2}]], ["PATH", fk, True], ["CONT"]],
+        [["CONT"]] * 6,
+        [],
+    ])
+
+
+def strict_observer_diff(impl_lines, model_lines, script):
+    """The shared transcript comparison lets the implementation omit observer notifications (an
+    assignment of the identical Rc is not a change).  Such an omission is only legitimate when the
+    value did not change: follow the values (GETVAR probes, the model's notifications) and report
+    the first notification of a CHANGED value that the implementation did not deliver."""
+    import re
+    val, base, ends = {}, {}, {}
+    nscript = 1 + len(script)
+    for k, (il, ml) in enumerate(zip(impl_lines, model_lines)):
+        if k == nscript:
+            base = dict(val)
+        if ml.startswith("PATH "):
+            # an exploration node replays its parent's path silently: start from the parent's final values
+            pm = re.match(r"PATH \[([0-9, ]*)\]:", ml)
+            cur = tuple(int(x) for x in pm.group(1).split(",") if x.strip()) if pm else None
+            val = dict(base) if cur == () else dict(ends.get(cur[:-1], {})) if cur else {}
+            ends[cur] = val
+            continue
+        op = script[k - 1] if 1 <= k < nscript else None
+        if op is not None and op[0] not in ("CONT", "CONT_MAX", "EVAL", "GETVAR", "VISITS", "OBSERVE", "FALLBACKS",
+                                            "HANDLER", "PATH", "CHOOSE"):
+            val = {}                     # RESET and anything else that may replace the variables
+        if op is not None and op[0] == "GETVAR":
+            m = re.match(r"ok\((.*?)\) \| can=", il)
+            if m and il == ml:
+                val[op[1]] = m.group(1)
+            continue
+        in_play = ml.startswith("  CONT") or (op is not None and op[0] in ("CONT", "CONT_MAX", "EVAL"))
+        om, _ = engine.obs_set(ml)
+        oi, _ = engine.obs_set(il)
+        for e in om:
+            m = re.match(r"obs\(([^,]*),([^,]*),(.*)\)$", e)
+            if not m:
+                continue
+            name, v = m.group(2), m.group(3)
+            if e not in oi and in_play and name in val and val[name] != v:
+                return dict(line=k, missing=e, previous_value=val[name], impl=il, model=ml)
+            val[name] = v
+    return None
+
+
+class _Sub:
+    """what the generators use of a ctx, with a random stream of its own (the engine half runs beside the
+    arithmetic half; neither may perturb the other's draws)"""
+    def __init__(self, seed, quick):
+        import random
+        self.rng, self._quick = random.Random(seed), quick
+
+    def quick(self):
+        return self._quick
+
+
+def engine_compute(ctx, exe_d, exe_r, sw):
+    """ctx: only .rng and .quick() are used.  Returns what engine_report needs."""
+    quick = ctx.quick()
+    progs = fault_programs(ctx, 16 if quick else 80)
+    depth, maxp = (2, 10) if quick else (3, 30)
+    cases, meta = [], {}
+    for handler in (False, True):
+        trees = hist.explore_tree(exe_d, progs, depth=3, max_paths=20,
+                                  setup=hist.setup_ops(progs[0], handler=handler))
+        for p in progs:
+            t = trees.get(p["id"])
+            if not t:
+                continue
+            obs = ["c04_acc"] + ctx.rng.sample([g for g in p["globals"] if not g.startswith("c04_")],
+                                               min(2, len([g for g in p["globals"] if not g.startswith("c04_")])))
+            st = hist.setup_ops(p, handler=handler) + [["OBSERVE", "obsA", g] for g in obs]
+            probes = [["GETVAR", g] for g in p["globals"]] + [["VISITS", k] for k in p["knots"][:6]]
+            tag = f"{p['id']}|h{int(handler)}"
+            fid = tag + "|fresh"
+            cases.append(dict(id=fid, ink=p["ink"], seed=42, fuel=40000, script=st + probes,
+                              explore=dict(depth=depth, max_paths=maxp)))
+            meta[fid] = dict(kind="fresh", nprobe=len(probes))
+            failing = sorted(q for q in t if not t[q].get("ok", True))
+            okp = sorted(q for q in t if t[q].get("ok", True))
+            ctx.rng.shuffle(failing)
+            ctx.rng.shuffle(okp)
+            nf, no = (3, 4) if quick else (6, 8)
+            hs = []
+            for q in failing[:nf]:
+                ops = hist.path_ops(t, q)
+                if ops:
+                    hs.append((q, ops, ctx.rng.choice([[], [], [["CONT"]], [["EVAL", "c04_f", [{"i": 1}]]]]), True))
+            for q in okp[:no]:
+                ops = hist.path_ops(t, q)
+                if ops is None:
+                    continue
+                ops = ops[:ctx.rng.randint(0, len(ops))]
+                ex = fault_extras(ctx, p)
+                hs.append((q, ops, ex, bool(ex)))
+            for n, (q, ops, ex, faulty) in enumerate(hs):
+                # load_state keeps errors that were not handed to a handler (as the reference runtime does): the
+                # story stays blocked, so without a handler the way back is RESET
+                load = ctx.rng.random() < 0.3 and (handler or not faulty)
+                pre = [["SAVE", "s0"]] if load else []
+                restore = [["LOAD", "s0"]] if load else [["RESET"]]
+                cid = f"{tag}|{n}|{'load' if load else 'reset'}"
+                cases.append(dict(id=cid, ink=p["ink"], seed=42, fuel=40000,
+                                  script=st + pre + ops + ex + restore + probes,
+                                  explore=dict(depth=depth, max_paths=maxp)))
+                meta[cid] = dict(kind="restore", fresh=fid, nprobe=len(probes), handler=handler, load=load,
+                                 nhist=len(ops) + len(ex))
+    res_d = {r["id"]: r for r in vlib.run_inkdrive(cases, exe_d)}
+    res_r = {r["id"]: r for r in vlib.run_inkdrive(cases, exe_r)}
+    by_id = {c["id"]: c for c in cases}
+    fails, n_checked, n_faulted = [], 0, 0
+    for cid, m in meta.items():
+        case = by_id[cid]
+        d, r = res_d.get(cid), res_r.get(cid)
+        if not d or not r:
+            continue
+        for prof, x in (("debug", d), ("release", r)):
+            bad = next((l for l in x.get("lines", []) if "=> panic" in l or "summary-panic" in l), None)
+            if x.get("crash") is not None or bad:
+                fails.append(dict(key="engine-panics", case=case, profile=prof, line=bad, crash=x.get("crash")))
+        if d.get("crash") is not None or r.get("crash") is not None or d.get("out_of_fuel") or r.get("out_of_fuel"):
+            continue
+        if [engine.canon_line(l) for l in d["lines"]] != [engine.canon_line(l) for l in r["lines"]]:
+            k = next((i for i, (a, b_) in enumerate(zip(d["lines"], r["lines"])) if engine.canon_line(a) != engine.canon_line(b_)),
+                     min(len(d["lines"]), len(r["lines"])))
+            fails.append(dict(key="engine-debug-release-differ", case=case,
+                              debug=d["lines"][k:k + 1], release=r["lines"][k:k + 1]))
+        if m["kind"] != "restore":
+            continue
+        f = res_d.get(m["fresh"])
+        if not f or f.get("out_of_fuel") or f.get("crash") is not None:
+            continue
+        lines = d["lines"]
+        a, b_ = eng_block(f["lines"]), eng_block(lines)
+        np_ = m["nprobe"]
+        ri = len(lines) - len(b_) - np_ - 1
+        if ri < 0 or " => ok" not in lines[ri] or not lines[ri].startswith(('["RESET"]', '["LOAD"')) \
+                or " nerr=0 " not in lines[ri]:
+            continue
+        n_checked += 1
+        if any(hist.split_line(l)[1].startswith("err(") or ";h(E," in l or "[h(E," in l for l in lines[:ri]):
+            n_faulted += 1
+        pa = [hist.split_line(l)[1] for l in f["lines"][len(f["lines"]) - len(a) - np_:len(f["lines"]) - len(a)]]
+        pb = [hist.split_line(l)[1] for l in lines[ri + 1:ri + 1 + np_]]
+        if pa != pb:
+            fails.append(dict(key="restore-after-fault-values-differ-from-fresh", case=case, fresh=pa, restored=pb))
+        elif a != b_:
+            k = next((i for i, (x, y) in enumerate(zip(a, b_)) if x != y), min(len(a), len(b_)))
+            fails.append(dict(key="restore-after-fault-play-differs-from-fresh", case=case,
+                              first_difference=dict(fresh=a[k] if k < len(a) else None,
+                                                    restored=b_[k] if k < len(b_) else None)))
+    # ---- correspondence with the engine model (RESET only: the model has no save/load ops)
+    cand = [c for c in cases if meta[c["id"]]["kind"] == "restore" and not meta[c["id"]]["load"]]
+    ctx.rng.shuffle(cand)
+    cand.sort(key=lambda c: meta[c["id"]]["handler"])          # scripts without an error handler first
+    nm = 36 if quick else 400
+    half = cand[: (2 * nm) // 3] + cand[len(cand) - nm // 3:] if len(cand) > nm else cand
+    mdepth = dict(depth=1, max_paths=4) if quick else dict(depth=2, max_paths=10)
+    mcases = [dict(c, id="m:" + c["id"], explore=mdepth) for c in half]
+    cres = engine.compare(mcases, exe_d, sw, shard=max(1, (len(mcases) + 13) // 14))
+    mism, strict, agree = [], [], 0
+    for c, r in zip(mcases, cres):
+        if r["status"] in ("mismatch", "model-error"):
+            mism.append(dict(case=c, first_diff=r.get("first_diff"), error=r.get("error")))
+        elif r["status"] == "agree":
+            agree += 1
+            sd = strict_observer_diff(r["impl_lines"], r["model_lines"], c["script"])
+            if sd:
+                strict.append(dict(case=c, first_diff=sd))
+    return dict(fails=fails, mism=mism, strict=strict, agree=agree, n_cases=len(cases), n_checked=n_checked,
+                n_faulted=n_faulted, n_model=len(mcases), n_progs=len(progs), depth=depth)
+
+
+def engine_report(ctx, res):
+    fails, mism, strict, agree, n_checked, n_faulted, depth = (res[k] for k in (
+        "fails", "mism", "strict", "agree", "n_checked", "n_faulted", "depth"))
+    cov = ctx.coverage
+    cov["evaluations"] = cov.get("evaluations", 0) + 2 * res['n_cases']
+    cov["distinct_nontrivial"] = cov.get("distinct_nontrivial", 0) + n_checked
+    cov["traces_validated_against_impl"] = cov.get("traces_validated_against_impl", 0) + agree
+    cov["correspondence_mismatches"] = cov.get("correspondence_mismatches", 0) + len(mism) + len(strict)
+    cov["engine_half"] = dict(
+        programs=res['n_progs'], cases=res['n_cases'], restore_cases_checked=n_checked, with_fault_before_restore=n_faulted,
+        model_cases=res['n_model'], model_agree=agree,
+        rule="hand-written and generated programs with injected faults (zero divisors from variables, wrong operand "
+             "types, int as divert target, missing END / ->-> / return value, faulting function) on their own paths and "
+             "behind jumps; host scripts WITH and WITHOUT an error handler, observers on the assigned globals; explored "
+             "histories + a fault (failing path, jump into a fault knot, evaluate_function, rejected continue), then "
+             "RESET or LOAD of the initial save, explored to depth %d in lock-step with a fresh instance; every case "
+             "in a debug and a release build (no panic, equal transcripts); the RESET cases also through the Coq engine "
+             "model, observer notifications compared strictly" % depth)
+    seen = set()
+    for f in fails:
+        if f["key"] in seen:
+            continue
+        seen.add(f["key"])
+        ctx.violation(f"{f['key']}: {json.dumps({k: v for k, v in f.items() if k not in ('key', 'case')})[:300]}", f, key=f["key"])
+    if not fails and not ctx.violations:
+        if mism:
+            ctx.violation("engine model/implementation correspondence broken: " + json.dumps(mism[0]["first_diff"])[:300],
+                          dict(mism[0], mismatches=len(mism)), no_input=True)
+        elif strict:
+            ctx.violation("observer notification of a changed value not delivered (model delivers it): "
+                          + json.dumps(strict[0]["first_diff"])[:300], dict(strict[0], cases=len(strict)), no_input=True)
+
+
+
+def engine_half(ctx, exe_d, exe_r):
+    """sequential form (debugging aid)"""
+    engine_report(ctx, engine_compute(ctx, exe_d, exe_r, engine.current_switches()))
+
+
 def run(ctx):
     facts = gen_tables.run(["native", "cmd", "path"])
     ctx.coverage["generated_tables"] = {"native.int_sem": facts.get("native.int_sem")}
@@ -138,6 +485,21 @@ def run(ctx):
     exe_d = vlib.build_harness()
     exe_r = vlib.build_harness(release=True)
     pr_ok = proof_ok(ctx, pr)
+    # the engine-wide half runs beside the arithmetic half (own random stream; tables and model objects that both
+    # use are brought up to date first, so the two never build the same file)
+    import threading
+    sw = engine.current_switches()
+    ctx.coverage["generated_tables"]["engine.switches"] = sw
+    okb0, logb0 = ctx.build(["theories/Data/NativeRun.vo", "theories/Engine/Run.vo"])
+    eng = {}
+
+    def eng_thread():
+        try:
+            eng["res"] = engine_compute(_Sub(getattr(ctx, "seed", 0) * 1000003 + 4, ctx.quick()), exe_d, exe_r, sw)
+        except BaseException as e:          # re-raised in the main thread
+            eng["exc"] = e
+    th = threading.Thread(target=eng_thread, daemon=True)
+    th.start()
 
     findings = {}     # key -> first failing input (property-direct, on the implementation)
     mism = []
@@ -253,12 +615,11 @@ def run(ctx):
         elif mism:
             ctx.violation("model/implementation correspondence broken: " + json.dumps(mism[0])[:400],
                           dict(mismatches=mism[:20]), no_input=True)
-    # ENGINE_HOOK: the engine-wide half (panic freedom of stepping, reset after error) registers here
-    try:
-        from props import c04_engine
-        c04_engine.run(ctx)
-    except ImportError:
-        pass
+    # ENGINE_HOOK: the engine-wide half (panic freedom of stepping, restore after a reported fault)
+    th.join()
+    if "exc" in eng:
+        raise eng["exc"]
+    engine_report(ctx, eng["res"])
 
 
 def replay(ctx, payload):
